@@ -49,10 +49,25 @@ Record cls : Type := {
   c_invs : list name;         (* descriptions of the own invariants *)
   c_methods : list name;      (* own methods except [__init__] *)
   c_ctor : option ctor;       (* [__init__] if present: arguments except self, body *)
-  c_wmt : option bool         (* [@serialization(with_model_type=..)] if present *)
+  c_wmt : option (option bool)
+    (* the [serialization] attribute: [None] = no decorator (no [Serialization] object),
+       [Some None] = [@serialization()] (object whose [with_model_type] is unset),
+       [Some (Some v)] = [@serialization(with_model_type=v)] *)
 }.
 
 Definition mm := list cls.    (* classes in declaration order *)
+
+(** [with_model_type] declared by the class itself, if any. *)
+Definition decl_wmt (c : cls) : option bool :=
+  match c_wmt c with Some (Some v) => Some v | _ => None end.
+
+(** Propagation of the inferred value into a class: a new [Serialization] object if the
+    class has none, otherwise the attribute of the existing object is set. *)
+Definition set_wmt (cur : option (option (option bool))) (v : bool) : option (option bool) :=
+  match cur with
+  | Some (Some _) => Some (Some v)     (* our_type.serialization.with_model_type = first.value *)
+  | _ => Some (Some v)                 (* our_type.serialization = Serialization(first.value) *)
+  end.
 
 (** An object with identity: (owner, index in the owner's list, payload). *)
 Definition ident (A : Type) : Type := (name * nat * A)%type.
@@ -343,27 +358,30 @@ Section Hierarchy.
 
   (** [_second_pass_to_stack_serializations_in_place]: state = setting per class and
       the error flag. *)
-  Definition ser_step (m : mm) (anc : amap) (st : list (name * option bool) * bool) (n : name)
-    : list (name * option bool) * bool :=
+  Definition ser_step (m : mm) (anc : amap)
+             (st : list (name * option (option bool)) * bool) (n : name)
+    : list (name * option (option bool)) * bool :=
     let '(smap, err) := st in
     if is_cp m anc n then st else
     match find_class m n with
     | None => st
     | Some c =>
-        let get := fun x => match lookup x smap with Some (Some v) => [v] | _ => [] end in
+        let get := fun x => match lookup x smap with Some (Some (Some v)) => [v] | _ => [] end in
         let wmts := flat_map get (c_bases c) ++ get n in
         match wmts with
         | [] => st
         | first :: rest =>
-            if forallb (Bool.eqb first) rest then (update n (Some first) smap, err)
+            if forallb (Bool.eqb first) rest
+            then (update n (set_wmt (lookup n smap) first) smap, err)
             else (smap, true)
         end
     end.
   Definition stack_serializations (m : mm) (anc : amap) (order : list name)
-    : list (name * option bool) * bool :=
+    : list (name * option (option bool)) * bool :=
     fold_left (ser_step m anc) order (map (fun c => (c_name c, c_wmt c)) m, false).
-  Definition final_wmt (smap : list (name * option bool)) (n : name) : bool :=
-    match lookup n smap with Some (Some v) => v | _ => false end.
+  (** the second loop: a missing object or an unset attribute becomes [False] *)
+  Definition final_wmt (smap : list (name * option (option bool))) (n : name) : bool :=
+    match lookup n smap with Some (Some (Some v)) => v | _ => false end.
 
   (** Generic stacking with de-duplication by identity
       ([_second_pass_to_stack_invariants_in_place], [..._properties_in_place]). *)
